@@ -190,8 +190,8 @@ def run(ctx):
     for job, r in zip(seqs, sres):
         for k, st in enumerate(r.get('steps', [])):
             sv = st.get('self_vals') or {}
-            if 'exc' in st or 'cur' not in sv or not st['state']['range'] or not st['state']['tab']:
-                continue
+            if 'cur' not in sv or not st.get('state') or not st['state']['range'] or not st['state']['tab']:
+                continue            # (a REFUSED merge counts too: whatever range the object reports afterwards must be honoured)
             hist['merged'] += 1
             ctx.count(('merged', json.dumps(job['init'], sort_keys=True), k))
             lo, hi = st['state']['range']
@@ -212,6 +212,21 @@ def run(ctx):
             continue
         names[spec] = {g['name']: g for g in info['groups']}
         jobs += est_jobs(ctx, spec, info, ctx.n(12, 150))
+    # the same estimate asked again after the library was merged into from a copy of itself with WIDER ranges
+    import re
+    for spec in syn[:ctx.n(6, 30)]:
+        if spec not in names:
+            continue
+        wide = os.path.join(os.path.dirname(spec) + '_wide', 'library.yaml')
+        os.makedirs(os.path.dirname(wide), exist_ok=True)
+        open(os.path.join(os.path.dirname(wide), 'scheme.yaml'), 'w').write('patterns: []\n')
+        txt = open(spec).read()
+        open(wide, 'w').write(re.sub(r'range: \[[^\]]*\]', 'range: [20.0 K, 4000.0 K]', txt))
+        for j in est_jobs(ctx, spec, {'groups': list(names[spec].values())}, 3):
+            j['update_from'] = wide
+            j['Ts'] = sorted(set(j['Ts'] + [25.0, 3500.0, 1234.5]))
+            j['widened'] = True
+            jobs.append(j)
     jobs.sort(key=lambda j: j['lib'])
     results = c01.run_by_lib(jobs)
     rows = []
@@ -222,6 +237,8 @@ def run(ctx):
         ctx.count(('est', job['lib'], tuple(job['sel'])))
         hist['estimate'] = hist.get('estimate', 0) + 1
         oracle_est(ctx, job, r, names[job['lib']])
+        if job.get('widened'):
+            continue            # (the constituents' ranges are those after the merge: reported by the child in r['parts'])
         prs = [names[job['lib']][n].get('range') for n in job['sel']]
         rows.append((prs, r['exc'] if 'exc' in r else r['range']))
     ctx.sample({'estimate': jobs[0]['mapping'], 'Ts': jobs[0]['Ts']})
